@@ -190,6 +190,31 @@ fn conv_tetris(src: &mut Src) -> Result<(String, usize), String> {
             c.abs = Some(a);
         }
     }
+    // some libraries also hold cells defined by a raw layout (pads, say) kept in a raw library of their
+    // own, registered with the gridded library or not, and instantiated by the top cell
+    let mut lib = lib;
+    if src.bool() {
+        let n = src.usize_in(2, 4);
+        let ext = layout21utils::Ptr::new(raw::Library::new("padlib", raw::Units::Nano));
+        let mut pads = vec![];
+        for k in 0..n {
+            let rc = ext.write().map_err(|_| "lock")?.cells.add(raw::Cell::from(raw::Layout { name: format!("pad{}", k), ..Default::default() }));
+            let c = tet::cell::Cell::from(tet::cell::RawLayoutPtr { outline: tet::outline::Outline::rect(1, 1).map_err(|e| format!("{:?}", e))?, metals: 0, lib: ext.clone(), cell: rc });
+            pads.push(lib.cells.add(c));
+        }
+        if src.bool() {
+            lib.rawlibs.push(ext.clone());
+        }
+        if let Some(top) = lib.cells.iter().find(|c| c.read().map(|c| c.name == "top").unwrap_or(false)) {
+            let mut top = top.write().map_err(|_| "lock")?;
+            if let Some(l) = top.layout.as_mut() {
+                for (k, p) in pads.iter().enumerate() {
+                    l.instances.add(tet::instance::Instance { inst_name: format!("pad_i{}", k), cell: p.clone(), loc: (0isize, 0isize).into(), reflect_horiz: false, reflect_vert: false });
+                }
+            }
+        }
+        keys = keys.max(n);
+    }
     let t = match tet::conv::raw::RawExporter::convert(lib, stack) {
         Err(e) => format!("ERR {:?}", e),
         Ok(rl) => {
